@@ -280,6 +280,9 @@ func (w *c03TWorld) waitAlive(idx []int) {
 		}
 		if time.Since(t0) > w.budget {
 			w.st.Class("inconclusive:recovery-budget-overrun")
+			if c03Debug {
+				fmt.Fprintf(os.Stderr, "C03DEBUG wait OVERRUN %v\n", w.log.String())
+			}
 			w.abort("instances %v not back on the store %v after it became reachable (ping loop is 100 ms; wall-clock budget, not a verdict)", idx, w.budget)
 		}
 		time.Sleep(2 * time.Millisecond)
@@ -287,6 +290,9 @@ func (w *c03TWorld) waitAlive(idx []int) {
 	if needed {
 		c03RecOK++
 		w.st.Class("recovery:completed")
+	}
+	if c03Debug {
+		fmt.Fprintf(os.Stderr, "C03DEBUG wait %v needed=%v\n", time.Since(t0).Round(time.Millisecond), needed)
 	}
 	for _, i := range idx {
 		in := w.inst[i]
@@ -302,6 +308,8 @@ func (w *c03TWorld) waitAlive(idx []int) {
 // Recoveries that had to wait for the ping loop, and those that completed within the
 // budget (process-wide; the units run their cases sequentially).
 var c03RecTried, c03RecOK int
+
+var c03Debug = verifkit.EnvInt("c03_debug", 0) == 1
 
 // c03NoRecovery: when not a single recovery completed in >= 3 attempts the outage clause
 // was not exercised.  That is no verdict (wall-clock budgets only) but no pass either: the
